@@ -131,8 +131,22 @@ def ops_small(doc):
     return ops
 
 
+def large_docs(seed):
+    """more fields, more occurrences, longer values than the depth-2 documents (explored to depth 1, thorough 2)"""
+    long_v = "x" * 120
+    F = lambda n, val: (n, "", "%s: %s\n" % (n, val))
+    M = lambda n, k: (n, "# about %s\n# second comment line\n" % n, "%s: first\n" % n + "".join(" line %d %s\n" % (i, "y" * 30) for i in range(k)))
+    names = ["Source", "Section", "Priority", "Maintainer", "Uploaders", "Build-Depends", "Standards-Version", "Homepage"]
+    d1 = [("par", [F(names[0], "a"), F(names[1], long_v), M(names[2], 5), F(names[3], "m"), M(names[4], 2),
+                   F(names[5], "b"), F(names[6], "4.6"), F(names[7], "h")])]
+    d2 = [("par", [F("A", "1"), F("B", "2"), F("A", "3"), M("A", 3), F("C", "4"), F("A", "5"), F("B", "6"), F("A", long_v)])]
+    return [d1, strip_final_newline(d1), d2, strip_final_newline(d2)]
+
+
 def units(tier, seed):
-    return [{"doc": d, "i": i} for i, d in enumerate(docs(seed))]
+    out = [{"doc": d, "i": i} for i, d in enumerate(docs(seed))]
+    out += [{"doc": d, "i": 1000 + i, "large": True} for i, d in enumerate(large_docs(seed))]
+    return out
 
 
 def unit_cost(u, tier):
@@ -146,6 +160,8 @@ def run_unit(u, tier, seed):
     if nf >= 5 and tier == "quick":
         gd = 2
     base = {"doc": u["doc"]}
+    if u.get("large"):
+        td, gd = (1, 0) if tier == "quick" else (2, 0)
     _doc.explore(part, u["doc"], ops_full, td, gd, NL, base, ops_small)
     ops = [o for o in ops_full(_doc.from_spec(u["doc"])) if _doc.enabled(_doc.from_spec(u["doc"]), o)]
     part.sample(dict(base, history=[ops[len(ops) // 2]]))
